@@ -1,6 +1,7 @@
 package props
 
 import (
+	"os"
 	"go/ast"
 	"go/token"
 	"go/types"
@@ -646,5 +647,15 @@ func init() {
 		c.R.Clause("C11-A6", "a last-element index is guarded by non-emptiness on the command paths")
 		n := lastElemGuarded(c, "C11-A6", []string{"node", "server"}, nil)
 		c.R.Min("C11-A6", n, 5, "X[len(X)-k] expressions in the command path")
+	}
+}
+
+func init() {
+	old := registry["C11"].Run
+	registry["C11"].Run = func(c *Ctx) {
+		old(c)
+		if os.Getenv("ZR_SURVEY_DIV") != "" {
+			divisorNonZero(c, "C11-SURVEY", []string{"node", "server", "cluster/pdnode_coord", "cluster", "rockredis", "common", "cluster/datanode_coord", "engine", "raft", "transport/rafthttp", "wal", "snap"})
+		}
 	}
 }
